@@ -93,18 +93,23 @@ impl FoldFSM {
         Ok(())
     }
 
-    pub(crate) fn meet_iteration_end(&mut self, data_keeper: &DataKeeper) {
-        self.ctor_queue.current().ctor.before_end(data_keeper);
+    pub(crate) fn meet_iteration_end(&mut self, data_keeper: &DataKeeper) -> FSMResult<()> {
+        let current = self.ctor_queue.current().ok_or(StateFSMError::NoFoldIterationStarted)?;
+        current.ctor.before_end(data_keeper);
+
+        Ok(())
     }
 
     pub(crate) fn meet_back_iterator(&mut self, data_keeper: &mut DataKeeper) -> FSMResult<()> {
         let back_traversal_started = self.ctor_queue.back_traversal_started();
 
+        // a script could execute next of this fold from an iteration of another (nested) fold several times,
+        // then there is no iteration to return to
         let LoreCtorDesc {
             ctor,
             prev_lore,
             current_lore,
-        } = self.ctor_queue.current();
+        } = self.ctor_queue.current().ok_or(StateFSMError::NoFoldIterationStarted)?;
 
         if !back_traversal_started {
             ctor.maybe_before_end(data_keeper);
@@ -119,7 +124,7 @@ impl FoldFSM {
                 ctor,
                 prev_lore,
                 current_lore,
-            } = self.ctor_queue.current();
+            } = self.ctor_queue.current().ok_or(StateFSMError::NoFoldIterationStarted)?;
 
             ctor.after_start(data_keeper);
             apply_fold_lore_after(data_keeper, prev_lore, current_lore)?;
